@@ -93,11 +93,16 @@ add("C18", "exploration",
     "Interleavings are whatever the OS scheduler and the jitter produce: a race needing one specific interleaving inside rayon or sled can be missed (this technique does not own their schedulers). The bounded-time clause is checked with a watchdog whose expiry is reported as exit 2 (inconclusive), never as a violation.",
     "differential testing across worker-pool sizes (child processes) + concurrent-vs-sequential comparison on a shared instance with generated schedules", "DESIGN.md#c18")
 
+add("C17", "exploration",
+    "One probe program is compiled from /repo's working tree once per build configuration (default/persistent tree, fullmerkletree, no-default/optimal tree, arkzkey, stateless). A generated workload (history of single-leaf writes, appends, deletions at depth 20; probe positions; proving requests) is executed by every build: roots after every step, leaf count, leaves, membership paths, exported witnesses are compared across the stateful builds and with the ideal tree model; message values with the RLN formulas; proving-key / verifying-key / constraint-matrix digests across all builds, and inside the arkzkey build both key files are parsed and compared element by element (exhaustive over the two files); every message of every producer (incl. the stateless prover) is verified by every build (raw, own tree, producer's root, negative controls). A configuration whose zerokit sources do not compile is reported as a violation.",
+    "Trusted: the ideal tree model and the RLN formulas (self-tested reference Poseidon/Keccak); cargo feature unification as performed for a downstream crate that selects the features (the probe depends on rln with default-features = false and adds features per configuration, like rln-cli does). Batch shapes are out of scope here (C06/C08).",
+    "differential testing across build configurations (N builds of one generated workload, transcripts compared with each other and with a reference model)", "DESIGN.md#c17")
+
 ALL = [f"C{i:02d}" for i in range(1, 21)]
 PENDING_REASON = "check not built yet in this revision of /verif (planned, see DESIGN.md section 2); not claimed until its machinery exists"
 manifest = {
     "version": 1,
-    "setup_cmd": "cd /verif/harness && CARGO_NET_OFFLINE=true cargo build --release --quiet",
+    "setup_cmd": "cd /verif && ./check setup",
     "hooks": {
         "guard": "--cfg zerokit_verif",
         "enable": "RUSTFLAGS/--cfg zerokit_verif via /verif/harness/.cargo/config.toml ([build] rustflags) when the harness builds /repo/rln and /repo/utils as path dependencies",
@@ -106,6 +111,8 @@ manifest = {
         "add_only": True,
     },
     "engines": [
+        {"name": "c17probe", "path": "/verif/c17probe", "serves_properties": ["C17"],
+         "kind_free_text": "probe program compiled once per zerokit build configuration (five target directories); driven by vharness"},
         {"name": "vharness", "path": "/verif/harness", "serves_properties": sorted(checks),
          "kind_free_text": "Rust crate: proptest TestRunner driven from a binary (fixed seeds, sharded), independent reference models, replay files; links /repo/rln and /repo/utils by path so every run rebuilds from the working tree"},
     ],
